@@ -45,12 +45,16 @@ impl PackHeader {
         }
     }
 
-    pub fn check_info_size(&self) -> ASize {
-        let check_info_size = self.file_size.into_u64()
-            - Self::BLOCK_SIZE as u64
-            - self.check_info_pos.into_u64()
-            - BlockCheck::Crc32.size() as u64;
-        ASize::new(check_info_size as usize)
+    /// The size of the check info, as implied by the header.
+    /// `file_size` and `check_info_pos` come from the file: an error if they contradict each other.
+    pub fn check_info_size(&self) -> Result<ASize> {
+        self.file_size
+            .into_u64()
+            .checked_sub(Self::BLOCK_SIZE as u64)
+            .and_then(|s| s.checked_sub(self.check_info_pos.into_u64()))
+            .and_then(|s| s.checked_sub(BlockCheck::Crc32.size() as u64))
+            .map(|s| ASize::new(s as usize))
+            .ok_or_else(|| format_error!("Check info position is not compatible with pack size"))
     }
 }
 
